@@ -138,6 +138,10 @@ def select (pt : PTree) (method : String) (us : List Part) : Selection :=
   | some i => ⟨true, (pt.store.getD i []).find? method, r.norm, r.params⟩
   | none => ⟨false, none, r.norm, r.params⟩
 
+/-- `modifyIntoDiagnosisFreePoliciesConfig`: the persisted copy the diagnosis fail-safe reverts to keeps EVERY
+    declared endpoint (whatever is left on it) and drops the diagnoses only. -/
+def diagnosisFree (es : List Endpoint) : List Endpoint := es.map fun e => { e with diags := [] }
+
 structure Globals where
   remedies : List Remedy
   diags : List Diag
@@ -145,6 +149,8 @@ deriving Repr
 
 /-- `getRemedies`: enabled endpoint remedies (scoped with method, normalised URL, params), then the
     enabled global ones.  Names only. -/
+def Globals.diagnosisFree (g : Globals) : Globals := { g with diags := [] }
+
 def getRemedies (pt : PTree) (g : Globals) (method : String) (us : List Part) : List String × List String :=
   let s := select pt method us
   ((match s.policy with
